@@ -1,6 +1,7 @@
 mod c05;
 mod c13;
 mod c15;
+mod c16;
 mod probe;
 mod rng;
 mod sexp;
@@ -17,6 +18,7 @@ fn main() {
         "c05" => c05::main(&args),
         "c13" => c13::main(&args),
         "c15" => c15::main(&args),
+        "c16" => c16::main(&args),
         "probe" => probe::main(&args),
         other => {
             eprintln!("unknown subcommand {}", other);
